@@ -829,8 +829,9 @@ class LessParser(object):
         """ argument_list       : argument_list argument
                                 | argument_list t_comma argument
         """
-        p[1].extend(list(p)[2:])
-        p[0] = p[1]
+        # (`f(, 1)`: the list so far is the empty one, which is '')
+        p[0] = p[1] if isinstance(p[1], list) else []
+        p[0].extend(list(p)[2:])
 
     def p_argument_list(self, p):
         """ argument_list       : argument
